@@ -384,6 +384,33 @@ type searchParameters struct {
 	controls     []Control
 }
 
+// decodeFilterDNAttributes decodes the dnAttributes flag of every extensible
+// match in a search filter read from the wire (e.g. "(cn:dn:=value)").
+// ldap.DecompileFilter expects that flag as a decoded bool, but ber only
+// decodes the values of universal class elements and the flag is context
+// specific: [4] BOOLEAN. Without this, a filter which uses ":dn" cannot be
+// decompiled and the search request is rejected.
+func decodeFilterDNAttributes(filter *ber.Packet) {
+	if filter == nil {
+		return
+	}
+	switch filter.Tag {
+	case ldap.FilterAnd, ldap.FilterOr, ldap.FilterNot:
+		for _, child := range filter.Children {
+			decodeFilterDNAttributes(child)
+		}
+	case ldap.FilterExtensibleMatch:
+		for _, child := range filter.Children {
+			if child == nil || child.Tag != ldap.MatchingRuleAssertionDNAttributes || child.Value != nil || child.Data == nil {
+				continue
+			}
+			if b := child.Data.Bytes(); len(b) == 1 {
+				child.Value = b[0] != 0
+			}
+		}
+	}
+}
+
 func (p *packet) searchParmeters() (*searchParameters, error) {
 	const op = "gldap.(Packet).searchParmeters"
 	const (
@@ -456,6 +483,7 @@ func (p *packet) searchParmeters() (*searchParameters, error) {
 		return nil, fmt.Errorf("%s: missing filter: %w", op, ErrInvalidParameter)
 	}
 
+	decodeFilterDNAttributes(requestPacket.Children[childFilter])
 	filter, err := ldap.DecompileFilter(requestPacket.Children[childFilter])
 	if err != nil {
 		return nil, fmt.Errorf("%s: unable to decompile filter: %w", op, err)
